@@ -47,6 +47,8 @@ def strategy(tier):
         "rerun": st.sampled_from([False, False, True]),
         # a symbolic link in the tree to a CMake file that lives elsewhere
         "filelink": st.sampled_from([None, None, "top", "sub"]),
+        # auto-exclusion of directories without CMake files off (never together with an output directory inside the tree)
+        "auto_off": st.sampled_from([False, False, True]),
     })
 
 
@@ -124,6 +126,12 @@ def evaluate(case):
             for dname in sorted(tree["dirs"])[:2]:
                 prepop[f"{dname}/design.rst"] = b"Design notes\n"
                 prepop[f"{dname}/_static/logo.txt"] = b"logo\n"
+                prepop[f"{dname}/index.rst.tmp"] = b"someone's scratch file\n"
+            # unrelated files whose names merely extend the names of generated files
+            for stem in ["index"] + [T.stem_of(n) for n in top_files[:2]]:
+                for suffix in (".rst.tmp", ".rst~", ".rst.bak", ".rst.new", ".tmp"):
+                    prepop[stem + suffix] = b"not generated by cminx\n"
+                prepop["." + stem + ".rst.swp"] = b"swap\n"
             for rel, data in prepop.items():
                 p = os.path.join(out_abs, rel)
                 os.makedirs(os.path.dirname(p), exist_ok=True)
@@ -132,7 +140,10 @@ def evaluate(case):
         cfg = sb.path("settings.yaml")
         settings = {"input": {f"include_undocumented_{k}": False for k in case["flags_off"]},
                     "rst": {"file_extensions_in_titles": case["ext"]}}
-        settings["input"]["auto_exclude_directories_without_cmake"] = True
+        auto_off = bool(case.get("auto_off")) and not outloc.startswith("nested") and outloc != "parent"
+        settings["input"]["auto_exclude_directories_without_cmake"] = not auto_off
+        if auto_off:
+            res.labels.append("auto-exclusion-off")
         if case["headers"]:
             settings["rst"]["headers"] = case["headers"]
         with open(cfg, "w") as f:
